@@ -298,6 +298,10 @@ func (x *wireExtractor) isSuccessReturnOnly(b *ast.BlockStmt) bool {
 	if len(b.List) == 0 {
 		return false
 	}
+	// `if cond { continue }` in a writer's loop: the rest of this iteration is optional as well
+	if br, isBr := b.List[len(b.List)-1].(*ast.BranchStmt); isBr && br.Tok == token.CONTINUE && br.Label == nil && x.mode == "w" {
+		return len(x.block(b.List[:len(b.List)-1])) == 0
+	}
 	ret, ok := b.List[len(b.List)-1].(*ast.ReturnStmt)
 	if !ok {
 		return false
@@ -655,6 +659,18 @@ func (x *wireExtractor) carryOf(e ast.Expr) string {
 		if r := x.unsubst(e); r != ast.Expr(e) {
 			return x.carryOf(r)
 		}
+		// a local that is defined once as (an append to) a field stands for that field:
+		// offsets := c.offsets; final := append(c.final, …)
+		if d := x.singleDef(e); d != nil {
+			if call, ok := ast.Unparen(d).(*ast.CallExpr); ok {
+				if id, ok := ast.Unparen(call.Fun).(*ast.Ident); ok && id.Name == "append" && len(call.Args) > 0 {
+					d = call.Args[0]
+				}
+			}
+			if _, ok := ast.Unparen(d).(*ast.SelectorExpr); ok {
+				return x.carryOf(d)
+			}
+		}
 	case *ast.CallExpr:
 		// conversions uint64(x)
 		if tv, ok := x.info.Types[e.Fun]; ok && tv.IsType() && len(e.Args) == 1 {
@@ -950,6 +966,11 @@ func (x *wireExtractor) dropUnwritten(items []wireItem, body *ast.BlockStmt) []w
 			switch id.Name {
 			case "append", "copy", "len", "cap":
 				if _, isBuiltin := x.info.Uses[id].(*types.Builtin); isBuiltin {
+					// append(c.acc, scratch[:n]...) into an accumulating byte-slice FIELD of an object
+					// (or a local alias of one) plays the part of accBuffer.Write(scratch[:n])
+					if id.Name == "append" && call.Ellipsis.IsValid() && len(call.Args) == 2 && x.isFieldAccumulator(call.Args[0], body) {
+						handed[carrierName(call.Args[1])] = true
+					}
 					return true
 				}
 			}
@@ -1215,4 +1236,87 @@ func (x *wireExtractor) sigWithArgs(obj *types.Func, args []ast.Expr) []wireItem
 	x.depth--
 	delete(x.active, obj)
 	return items
+}
+
+// isFieldAccumulator: e is a []byte field selected from some object, or a
+// local variable that is initialised from such a field in body.
+func (x *wireExtractor) isFieldAccumulator(e ast.Expr, body *ast.BlockStmt) bool {
+	isField := func(e ast.Expr) bool {
+		se, ok := ast.Unparen(e).(*ast.SelectorExpr)
+		if !ok {
+			return false
+		}
+		sel := x.info.Selections[se]
+		return sel != nil && sel.Kind() == types.FieldVal && isByteSlice(sel.Type())
+	}
+	if isField(e) {
+		return true
+	}
+	id, ok := ast.Unparen(e).(*ast.Ident)
+	if !ok {
+		return false
+	}
+	obj := x.info.Uses[id]
+	found := false
+	ast.Inspect(body, func(n ast.Node) bool {
+		as, ok := n.(*ast.AssignStmt)
+		if !ok || len(as.Lhs) != len(as.Rhs) {
+			return true
+		}
+		for i, lhs := range as.Lhs {
+			if lid, ok := ast.Unparen(lhs).(*ast.Ident); ok && x.info.Defs[lid] == obj && obj != nil && isField(as.Rhs[i]) {
+				found = true
+			}
+		}
+		return true
+	})
+	return found
+}
+
+// singleDef: id is a local variable with exactly one defining assignment
+// (`id := e` or `var id = e`) in the functions being extracted and no other
+// plain assignment: e.
+func (x *wireExtractor) singleDef(id *ast.Ident) ast.Expr {
+	obj, ok := x.info.Uses[id].(*types.Var)
+	if !ok || obj.Pkg() == nil || obj.Parent() == obj.Pkg().Scope() || obj.IsField() {
+		return nil
+	}
+	var def ast.Expr
+	n := 0
+	for _, body := range x.bodies {
+		ast.Inspect(body, func(nd ast.Node) bool {
+			switch s := nd.(type) {
+			case *ast.AssignStmt:
+				for i, lhs := range s.Lhs {
+					lid, ok := ast.Unparen(lhs).(*ast.Ident)
+					if !ok {
+						continue
+					}
+					if x.info.Defs[lid] == types.Object(obj) || x.info.Uses[lid] == types.Object(obj) {
+						n++
+						if len(s.Lhs) == len(s.Rhs) {
+							def = s.Rhs[i]
+						} else {
+							def = nil
+							n++
+						}
+					}
+				}
+			case *ast.ValueSpec:
+				for i, nm := range s.Names {
+					if x.info.Defs[nm] == types.Object(obj) {
+						n++
+						if i < len(s.Values) {
+							def = s.Values[i]
+						}
+					}
+				}
+			}
+			return true
+		})
+	}
+	if n != 1 {
+		return nil
+	}
+	return def
 }
